@@ -83,4 +83,4 @@ func Pairings() []*P {
 	return pcache
 }
 
-const BuildConfig = "default"
+var BuildConfig = "default"
